@@ -1,12 +1,12 @@
 package main
 
 import (
-	"sort"
-	"regexp/syntax"
 	"fmt"
 	"go/ast"
 	"go/token"
 	"go/types"
+	"regexp/syntax"
+	"sort"
 	"strings"
 
 	"golang.org/x/tools/go/packages"
